@@ -36,6 +36,7 @@ type (
 	ECall struct {
 		Fun  string
 		Args []Expr
+		Recv Expr // method call on an expression: Recv.Fun(Args)
 	}
 	ESel struct {
 		X    Expr
@@ -63,6 +64,11 @@ func (e *EBinary) String() string {
 	return "(" + e.X.String() + " " + e.Op + " " + e.Y.String() + ")"
 }
 func (e *ECall) String() string {
+	if e.Recv != nil {
+		r := *e
+		r.Recv = nil
+		return e.Recv.String() + "." + r.String()
+	}
 	var a []string
 	for _, x := range e.Args {
 		a = append(a, x.String())
@@ -425,6 +431,23 @@ func (ps *parser) postfix(e Expr) Expr {
 				}
 				ps.expect(")")
 				e = &ECall{Fun: id.Name + "." + n.text, Args: args}
+				continue
+			}
+			if ps.isOp("(") {
+				ps.next()
+				var args []Expr
+				if !ps.isOp(")") {
+					for {
+						args = append(args, ps.expr(0))
+						if ps.isOp(",") {
+							ps.next()
+							continue
+						}
+						break
+					}
+				}
+				ps.expect(")")
+				e = &ECall{Fun: n.text, Args: args, Recv: e}
 				continue
 			}
 			e = &ESel{X: e, Name: n.text}
